@@ -129,7 +129,7 @@ pub open spec fn params_post(possible: Seq<FunctionArg>, act: Seq<(Position, Exp
 //@@ REPLACE
 //@@< possible.iter().zip_longest(args.iter())
 //@@> verif_zip_longest(possible, &args)
-//@@ REPLACE pin=5d0d4b0424b5
+//@@ REPLACE pin=c909ce0e8813
 //@@< fun_arg.ty.clone().ok_or_else($$)
 //@@> verif_ok_or_err(fun_arg.ty.clone(), *pos) /* yields the Vec<TypeErr> the `?` would convert the single error into */
 //@@ REPLACE
@@ -198,7 +198,7 @@ pub open spec fn reassignable(a: AST) -> Option<Identifier>
 }
 
 //@@ FN src/check/constrain/generate/call.rs | free | check_reassignable | props=C07,C03
-//@@ REPLACE pin=b44f60409a81
+//@@ REPLACE pin=cb854f27c071
 //@@< Identifier::try_from(ast).map_err($$)
 //@@> verif_identifier_of(ast)
     ensures
@@ -239,12 +239,72 @@ pub open spec fn desugared(ast: AST, left: AST, right: AST, op: NodeOp) -> Optio
 
 // ---- gen_call (C07: every reassignment passes the reassignable + mutability tests first; C05/C08: a call of a function known
 // ---- to the context gets its parameters constrained, its return type recorded and its declared raises tested) -----------------
-/// the mutability verdict (check_iden_mut: a flat_map / guard closure chain over Environment::get_var — OUTSIDE reach)
-pub uninterp spec fn iden_mut_ok(id: Identifier, env: Environment, global: VarMapping) -> bool;
+// ---- check_iden_mut: the mutability VERDICT (C07).  The function is `fields.iter().flat_map(|(f_mut, var)| match .. ).collect()`;
+// ---- one declared rewrite turns `iter().flat_map(closure).collect()` into a call of a generic helper that takes the SAME closure
+// ---- (parameter pattern spelled as a `let`, body carried verbatim) with a spliced postcondition: the closure body — the match
+// ---- with its guards, i.e. the rule itself — is verified against the specification below, written from the property text --------
+/// a target (declared-mutable flag of the identifier, name) may be assigned iff ...
+pub open spec fn target_ok(env: Environment, g: VarMapping, f: (bool, String)) -> bool {
+    if visible(env, g, f.1@) {
+        // ... it is defined: the identifier is a mutable target AND every definition recorded for the name is mutable (not fin)
+        f.0 && forall|m: bool, x: Expected| hs(hm(env.vars)[lookup_key(env, g, f.1@)]).contains((m, x)) ==> m
+    } else {
+        // ... a name that was never defined cannot be assigned — except `self` inside a class
+        f.0 && f.1@ == "self"@ && env.class is Some
+    }
+}
+pub uninterp spec fn id_fields_seq(i: Identifier) -> Seq<(bool, String)>;
+pub uninterp spec fn id_has_fields(i: Identifier) -> bool;
+pub open spec fn iden_mut_ok(id: Identifier, env: Environment, global: VarMapping) -> bool {
+    forall|k: int| 0 <= k < id_fields_seq(id).len() ==> target_ok(env, global, #[trigger] id_fields_seq(id)[k])
+}
+impl Identifier {
+    /// A-EXT: the (flag, name) pairs of an identifier (recursive iterator code: a function of it)
+    #[verifier::external_body]
+    pub fn fields(&self, pos: Position) -> (r: TypeResult<Vec<(bool, String)>>)
+        ensures r is Ok <==> id_has_fields(*self), r matches Ok(v) ==> v@ == id_fields_seq(*self), r is Err ==> r->Err_0@.len() >= 1,
+    { unimplemented!() }
+}
+/// A-REWRITE: `v.iter().flat_map(f).collect::<Vec<String>>()` is the concatenation of f's results: empty iff every part is
+/// empty.  `pred` is a ghost name for "this element's part is empty"; the caller must show that f's postcondition implies it.
 #[verifier::external_body]
-pub fn check_iden_mut(id: &Identifier, env: &Environment, constr: &mut ConstrBuilder, pos: Position) -> (r: TypeResult<()>)
-    ensures *final(constr) == *old(constr), r is Ok <==> iden_mut_ok(*id, *env, old(constr).var_mapping), r is Err ==> r->Err_0@.len() >= 1,
+pub fn verif_flat_map_collect<T, F: Fn(&T) -> Vec<String>>(v: &Vec<T>, f: F, Ghost(pred): Ghost<spec_fn(T) -> bool>) -> (r: Vec<String>)
+    requires forall|k: int| 0 <= k < v@.len() ==> #[trigger] f.requires((&v@[k],)),
+        forall|k: int, out: Vec<String>| 0 <= k < v@.len() && #[trigger] f.ensures((&v@[k],), out) ==> (out@.len() == 0 <==> pred(v@[k])),
+    ensures r@.len() == 0 <==> (forall|k: int| 0 <= k < v@.len() ==> pred(#[trigger] v@[k])),
 { unimplemented!() }
+/// OUTLINED `exps.iter().filter(|(is_mut, _)| !*is_mut).map(|(_, var)| format!(..)).collect()`: one message per immutable definition
+#[verifier::external_body]
+pub fn verif_immutable_defs(exps: &HashSet<(bool, Expected)>) -> (r: Vec<String>)
+    ensures r@.len() == 0 <==> (forall|m: bool, x: Expected| hs(*exps).contains((m, x)) ==> m),
+{ unimplemented!() }
+/// OUTLINED `var == SELF` (&String against &str)
+#[verifier::external_body]
+pub fn verif_string_is(a: &String, b: &str) -> (r: bool) ensures r == (a@ == b@) { unimplemented!() }
+/// OUTLINED `errors.iter().map(|msg| TypeErr::new(pos, msg)).collect()`: one diagnostic per message
+#[verifier::external_body]
+pub fn verif_errs(errors: &Vec<String>, pos: Position) -> (r: Vec<TypeErr>) ensures r@.len() == errors@.len() { unimplemented!() }
+pub const SELF: &'static str = "self";
+
+//@@ FN src/check/constrain/generate/call.rs | free | check_iden_mut | props=C07,C03
+//@@ REPLACE deep
+//@@< id .fields(pos)? .iter() .flat_map(|($fm, $v)| $$) .collect()
+//@@> verif_flat_map_collect(&id.fields(pos)?, |verif_p: &(bool, String)| -> (out: Vec<String>) ensures /*# a_target_is_assignable_iff_defined_mutable_or_self_in_a_class [C07] #*/ out@.len() == 0 <==> target_ok(*env, constr.var_mapping, *verif_p), { let ($fm, $v) = verif_p; $$1 }, Ghost(|f: (bool, String)| target_ok(*env, constr.var_mapping, f)))
+//@@ REPLACE pin=2408e83b1ed6
+//@@< $ex .iter() .filter($$) .map($$) .collect()
+//@@> verif_immutable_defs(&$ex)
+//@@ REPLACE
+//@@< var == SELF
+//@@> verif_string_is(var, SELF)
+//@@ REPLACE pin=322ad62c3d60
+//@@< errors.iter().map($$).collect()
+//@@> verif_errs(&errors, pos)
+    ensures
+        *final(constr) == *old(constr),                                          //# the_test_changes_nothing [-]
+        r is Ok <==> (id_has_fields(*id) && iden_mut_ok(*id, *env, old(constr).var_mapping)), //# reassignment_is_accepted_iff_every_target_is_assignable [C07]
+        r is Err ==> r->Err_0@.len() >= 1,                                       //# rejection_carries_a_diagnostic [-]
+//@@ END
+
 /// unit GENFLOW proves this contract on the real body (assume-guarantee)
 pub uninterp spec fn covered(ctx: Context, n: TrueName, caught: Set<TrueName>) -> bool;
 pub open spec fn all_covered(ctx: Context, raises: Set<TrueName>, caught: Set<TrueName>) -> bool {
@@ -326,16 +386,16 @@ pub open spec fn call_post(ast: AST, env: Environment, ctx: Context, r: Constrai
 }
 
 //@@ FN src/check/constrain/generate/call.rs | free | gen_call | props=C07,C05,C08,C09,C03
-//@@ REPLACE pin=bd05708682f4
+//@@ REPLACE pin=434f0268e720
 //@@< identifier .all_calls() .iter() .flat_map($$) .flat_map($$) .fold($$)
 //@@> verif_assigned_env(&identifier, env, left.pos)
 //@@ REPLACE
 //@@< f_name == StringName::from(function::PRINT)
 //@@> verif_is_print(&f_name)
-//@@ REPLACE pin=9cc3ab720bcb
+//@@ REPLACE pin=5ce014525064
 //@@< args.iter() .map($$) .for_each($$);
 //@@> verif_havoc_print_constraints(args, env, constr);
-//@@ REPLACE pin=0dfe0678cf55
+//@@ REPLACE pin=cf8733860c97
 //@@< for (_, $fe) in functions { $$ }
 //@@> verif_havoc_local_function_loop(functions, args, env, constr);
     ensures
